@@ -158,8 +158,13 @@ func (w *histWorld) Exec(p *Plan, st *RunStats) *Violation {
 				}
 			}
 		}
-		if st.Ops%8 == 0 && len(st.States) < 64 {
+		if st.Ops%8 == 0 && len(st.States) < 64 && !w.bigN {
 			st.States = append(st.States, hashStr(p.Cfg.Kind+s.ModelObs()))
+		}
+	}
+	if !o.Failed() {
+		if h, ok := s.(interface{ FinalCheck(*Oracle) }); ok {
+			safely(o, Op{ID: -1, N: "FinalCheck"}, func() { h.FinalCheck(o) })
 		}
 	}
 	if !o.Failed() {
